@@ -16,6 +16,15 @@ mirror must predict refusal vs. acceptance, the refusing guard, and every report
 size; accepted builds must equal the u32 build (grammar listing, canonically
 renumbered table, parse results).
 
+Per-state iterators and error recovery (the observation points beyond plain parsing): in
+EVERY build the harness compares `state_actions` / `state_shifts` / `core_reduces` of every
+state with the `action()` cells of that width (` | IT …`); the boundary configurations, the
+conflict-free part of the merge family and a set of dedicated grammars (30-300 tokens, state
+index x tokens_len / prods_len beyond 255 resp. 65535) parse ERRONEOUS inputs with
+RecoveryKind::CPCTPlus in all three widths, release and debug (` | R …`): error positions, the
+SET of repair sequences offered per error and (as long as the same sequences were applied —
+repairs()[0] is an arbitrary member of the set) the value must agree with the u32 release build.
+
 GUARDS_FIXED selects which guards the mirror evaluates: False = the guards of the
 unchanged tree (grammar.rs:150-165), True = the proposed ones.  The coordinator
 flips it when the fix is applied to /repo.
@@ -34,6 +43,8 @@ KNOWN = {
 }
 
 WIDTHS = [8, 16, 32]
+REC_BUDGET_MS = 4000          # CPCT+ time budget of the recovery parses (hook GRMTOOLS_VERIF_RECOVERY_BUDGET_MS)
+REC_ENV = {"GRMTOOLS_VERIF_RECOVERY_BUDGET_MS": str(REC_BUDGET_MS)}
 
 
 def hx(s):
@@ -114,7 +125,7 @@ class Case:
         return [good, bad, good + " p0"]
 
     def harness_line(self, w):
-        return "%s %d %s ; %s" % (self.kind, w, hx(self.src()), " ; ".join(self.inputs()))
+        return "%s %d %s rec ; %s" % (self.kind, w, hx(self.src()), " ; ".join(self.inputs()))
 
     def model_line(self, w, states):
         return "%d %d %s %d %d %s %d %d 0 ; %s" % (
@@ -152,7 +163,7 @@ def parse_kv(s):
 
 def parse_impl(line):
     """-> dict(stage outcomes); never raises"""
-    r = {"raw": line, "G": None, "T": None, "P": [], "gmsg": "", "tmsg": ""}
+    r = {"raw": line, "G": None, "T": None, "P": [], "gmsg": "", "tmsg": "", "IT": None, "R": []}
     parts = [p.strip() for p in line.split(" | ")]
     for p in parts:
         if p.startswith("G "):
@@ -169,6 +180,10 @@ def parse_impl(line):
                 r["t"] = parse_kv(p)
         elif p.startswith("P "):
             r["P"].append(p)
+        elif p.startswith("IT "):
+            r["IT"] = p[3:]
+        elif p.startswith("R "):
+            r["R"].append(p)
         else:
             r["G"] = r["G"] or "OTHER"
             r["gmsg"] = p
@@ -224,7 +239,203 @@ def width_invariant(line):
     return ("OK", t.get("sr"), t.get("rr"), t.get("ns"), tuple(outs))
 
 
-def merge_family(ctx, exe_r):
+def rec_parse(part):
+    """` R <toks> => <outcome>` -> {"panic": msg} | {"val":…, "tm": ms, "errs": [(lexeme idx, state, applied, offered set)]}"""
+    o = part.split(" => ", 1)[1] if " => " in part else part
+    if o.startswith("panic") or o.startswith("lexerr"):
+        return {"panic": o}
+    f = o.split()
+    d = {"val": None, "tm": 0, "errs": []}
+    i = 0
+    while i < len(f):
+        if f[i].startswith("val="):
+            d["val"] = f[i][4:]
+            i += 1
+        elif f[i].startswith("tm="):
+            d["tm"] = int(f[i][3:])
+            i += 1
+        elif f[i] == "E" and i + 4 < len(f) + 0:
+            d["errs"].append((int(f[i + 1]), f[i + 2], f[i + 3], f[i + 4]))
+            i += 5
+        else:
+            i += 1
+    return d
+
+
+def rec_diff(a, b, same_table=True):
+    """compare two recovery outcomes of the same input -> (status, text); status: same | choice (different member of the same
+    offered set applied: what follows is not comparable) | timeout | DIFF"""
+    if "panic" in a or "panic" in b:
+        if a.get("panic") == b.get("panic"):
+            return "same", ""
+        return "DIFF", "%s vs %s" % (a.get("panic", "returns"), b.get("panic", "returns"))
+    for i, (x, y) in enumerate(zip(a["errs"], b["errs"])):
+        if x[0] != y[0]:
+            return "DIFF", "error #%d at lexeme %d vs %d" % (i, x[0], y[0])
+        if not same_table:
+            return "choice", ""                # the stack at the error (hence the offered set) may depend on the state merges
+        if x[3] == "-" or y[3] == "-":
+            if x[3] != y[3]:
+                t = a["tm"] if x[3] == "-" else b["tm"]
+                if t >= 0.7 * REC_BUDGET_MS:
+                    return "timeout", ""
+                return "DIFF", "error #%d (lexeme %d): no repair offered vs {%s}" % (i, x[0], y[3] if x[3] == "-" else x[3])
+        elif x[3] != y[3]:
+            return "DIFF", "error #%d (lexeme %d): repair sequences offered {%s} vs {%s}" % (i, x[0], x[3], y[3])
+        if x[2] != y[2]:
+            return "choice", ""
+    if len(a["errs"]) != len(b["errs"]):
+        return "DIFF", "%d vs %d errors after identical repairs" % (len(a["errs"]), len(b["errs"]))
+    if a["val"] != b["val"]:
+        return "DIFF", "value %s vs %s after identical repairs" % (a["val"], b["val"])
+    return "same", ""
+
+
+def extras_diff(ctx, r, ref, what, same_table=True):
+    """per-state iterators and recovery parses of an accepted build `r` against the reference build `ref` (u32, release).
+    -> list of differences (empty = fine)"""
+    out = []
+    if r["T"] != "OK" or ref["T"] != "OK":
+        return out
+    it = r.get("IT")
+    if it is None or not it.startswith("ok"):
+        out.append("%s: per-state iterators disagree with the action() cells of the same table: %s" % (what, it))
+    elif same_table and ref.get("IT") and it != ref["IT"]:
+        out.append("%s: %s states checked, reference %s" % (what, it, ref["IT"]))
+    if len(r["R"]) != len(ref["R"]):
+        if r["R"] or ref["R"]:
+            out.append("%s: %d recovery parses, reference %d" % (what, len(r["R"]), len(ref["R"])))
+        return out
+    for j, (x, y) in enumerate(zip(r["R"], ref["R"])):
+        a, b = rec_parse(x), rec_parse(y)
+        if "panic" in a:
+            out.append("%s: input #%d with CPCT+ recovery: %s" % (what, j, a["panic"][:200]))
+            ctx.count("rec_compare_DIFF")
+            continue
+        st, txt = rec_diff(a, b, same_table)
+        if a["errs"]:
+            ctx.count("rec_compare_" + st)
+            if st == "same" and len(a["errs"]) > 1:
+                ctx.count("rec_compare_same_multi_error")
+        if st == "DIFF":
+            out.append("%s: input #%d (%s) with CPCT+ recovery: %s [this build: %s | reference: %s]"
+                       % (what, j, x.split(" => ")[0][2:], txt, x.split(" => ", 1)[-1][:300], y.split(" => ", 1)[-1][:300]))
+    return out
+
+
+KW_TAIL = "Expr: Expr 'PLUS' Term | Term;\nTerm: 'INT' | 'LP' Expr 'RP';\n"
+
+
+def dedicated_grammars(ctx):
+    """grammars every width up to the stated one accepts, in which state index x tokens_len (and x prods_len) exceeds the
+    storage width's maximum for most states; each with erroneous inputs -> [(name, src, [inputs])]"""
+    rng = ctx.rng
+    out = []
+
+    def inputs(n, kws):
+        k = lambda: "K%d" % rng.choice([0, 1, n // 2, n - 2, n - 1, rng.randrange(n)])
+        ins = ["%s INT PLUS INT SEMI %s LP INT RP SEMI" % (k(), k()),
+               "%s INT PLUS PLUS INT SEMI" % k(),
+               "%s INT INT SEMI" % k(),
+               "%s SEMI" % k(),
+               "%s LP INT SEMI" % k(),
+               "%s INT RP SEMI %s INT SEMI" % (k(), k()),
+               "%s INT PLUS INT" % k(),
+               "%s %s INT SEMI" % (k(), k()),
+               "INT SEMI %s INT SEMI" % k(),
+               "%s INT PLUS INT SEMI %s INT PLUS PLUS INT SEMI %s LP INT SEMI" % (k(), k(), k()),
+               "%s LP LP INT RP SEMI" % k(),
+               "%s INT SEMI SEMI %s" % (k(), k())]
+        for _ in range(ctx.n(4, 12)):
+            base = ("%s INT PLUS LP INT RP SEMI %s INT SEMI" % (k(), k())).split()
+            for _ in range(rng.randint(1, 2)):
+                c = rng.random()
+                pos = rng.randrange(len(base) + 1)
+                if c < 0.4 and base:
+                    del base[min(pos, len(base) - 1)]
+                elif c < 0.8:
+                    base.insert(pos, rng.choice(["INT", "PLUS", "LP", "RP", "SEMI", k()]))
+                elif base:
+                    base[min(pos, len(base) - 1)] = rng.choice(["INT", "PLUS", "LP", "RP", "SEMI", k()])
+            ins.append(" ".join(base))
+        return ins
+    for n in (30, 45, 60) + (() if ctx.quick else (36, 52, 70)):
+        # one statement form per keyword: ~3n+12 states, n+6 tokens, n+7 productions
+        src = "%start Stmts\n%%\nStmts: Stmts Stmt | ;\nStmt: " + " | ".join("'K%d' Expr 'SEMI'" % i for i in range(n)) + ";\n" + KW_TAIL
+        out.append(("stmt-per-keyword-%d" % n, src, inputs(n, n)))
+    for n in (30, 40, 55) + (() if ctx.quick else (100, 200)):
+        # a keyword rule: ~n+14 states
+        src = ("%start Stmts\n%%\nStmts: Stmts Stmt | ;\nStmt: Kw Expr 'SEMI';\nKw: " + " | ".join("'K%d'" % i for i in range(n)) + ";\n" + KW_TAIL)
+        out.append(("keyword-rule-%d" % n, src, inputs(n, n)))
+    # 16 bit: u8 refuses (tokens), u16 accepts; states x tokens_len > 65535
+    for n in (300,) + (() if ctx.quick else (150,)):
+        if n >= 300:
+            src = ("%start Stmts\n%%\nStmts: Stmts Stmt | ;\nStmt: Kw Expr 'SEMI';\nKw: " + " | ".join("'K%d'" % i for i in range(n)) + ";\n" + KW_TAIL)
+            out.append(("keyword-rule-%d" % n, src, inputs(n, n)))
+        else:
+            src = "%start Stmts\n%%\nStmts: Stmts Stmt | ;\nStmt: " + " | ".join("'K%d' Expr 'SEMI'" % i for i in range(n)) + ";\n" + KW_TAIL
+            out.append(("stmt-per-keyword-%d" % n, src, inputs(n, n)))
+    return out
+
+
+def recovery_family(ctx, exe_r, exe_d, items, label):
+    """items: [(name, src, [input strings], same_table)]: every input parsed with CPCT+ in u8/u16/u32, release and debug; the
+    per-state iterators checked in every build.  Reference = u32 release."""
+    lines, meta = [], []
+    for name, src, ins, same in items:
+        for w in WIDTHS:
+            lines.append("N %d %s rec ; %s" % (w, hx(src), " ; ".join(ins)))
+    env = dict(REC_ENV, GVH_CASE_TIMEOUT_MS="120000")
+    out_r = core.run_lines([exe_r], lines, timeout=3000, env=env)
+    out_d = core.run_lines([exe_d], lines, timeout=3000, env=env)
+    nbad = 0
+    for k, (name, src, ins, same) in enumerate(items):
+        ref = parse_impl(out_r[3 * k + 2])
+        diffs = []
+        builds = {}
+        for prof, outs in (("release", out_r), ("debug", out_d)):
+            for j, w in enumerate(WIDTHS):
+                line = outs[3 * k + j]
+                r = parse_impl(line)
+                builds["%s u%d" % (prof, w)] = line[:700]
+                if line.startswith("HANG") or line.startswith("CRASH"):
+                    diffs.append("%s u%d: %s" % (prof, w, line[:120]))
+                    continue
+                if r["G"] == "REFUSED" or r["T"] == "REFUSED":
+                    ctx.count("%s_refused_w%d" % (label, w))
+                    continue
+                if r["G"] != "OK" or r["T"] != "OK":
+                    diffs.append("%s u%d: build did not succeed: %s" % (prof, w, line[:160]))
+                    continue
+                if ref["T"] != "OK":
+                    continue
+                iso = r["t"].get("th") == ref["t"].get("th")
+                if comparable(r) != comparable(ref) and same:
+                    diffs.append("%s u%d: grammar / table / plain parse transcript differs from the u32 release build" % (prof, w))
+                diffs += extras_diff(ctx, r, ref, "%s u%d" % (prof, w), same_table=(same or iso))
+        nrej = sum(1 for p in ref["P"] if " => rej" in p)
+        ns = int(ref.get("t", {}).get("ns", 0) or 0)
+        tl = int(ref.get("g", {}).get("tl", 0) or 0)
+        ctx.count("%s_grammars" % label)
+        ctx.coverage["recovery_inputs_rejected_without_recovery"] = ctx.coverage.get("recovery_inputs_rejected_without_recovery", 0) + nrej
+        for w in WIDTHS:
+            ctx.case("%s %s w%d" % (label, name, w), ns * tl > (1 << w) - 1 and nrej > 0,
+                     {"grammar": src if len(src) < 600 else src[:600] + "…", "width": w, "states": ns, "tokens_len": tl, "inputs": ins[:4]})
+        if ref["G"] != "OK" or ref["T"] != "OK":
+            diffs.append("the u32 release build did not succeed: %s" % out_r[3 * k + 2][:200])
+        if diffs:
+            nbad += 1
+            ctx.violation({"grammar": src, "inputs": ins, "differences": diffs[:12], "builds": builds, "family": label, "name": name,
+                           "why": "per-state iterators / error recovery results (error positions, offered repair sequences, value) depend on "
+                                  "the index storage width or the build profile",
+                           "replay_cmd": "for w in 8 16 32; do echo \"N $w %s rec ; %s\" | GRMTOOLS_VERIF_RECOVERY_BUDGET_MS=%d "
+                                         ".work/target/{release,debug}/c20; done" % (hx(src) if len(src) < 400 else "<hex of grammar>",
+                                                                                      " ; ".join(ins)[:400], REC_BUDGET_MS)})
+    ctx.oblige(nbad == 0, "width-independence-iterators-recovery-" + label)
+    return len(items)
+
+
+def merge_family(ctx, exe_r, exe_d=None):
     """small LR(1)-but-not-LALR(1) grammars (Pager must decide which same-core states to merge): the
     decision must not depend on the storage width although the hash order of the item maps does"""
     from gen import grammars as gg
@@ -262,9 +473,10 @@ def merge_family(ctx, exe_r):
             seen.add(g.key())
             uniq.append(g)
     gs = uniq
-    lines, meta = [], []
+    lines, meta, ins_of = [], [], []
     for g in gs:
         inputs = gg.inputs_for(rng, g, ctx.n(10, 20), maxlen=8)
+        ins_of.append(inputs)
         ins = " ; ".join(" ".join(x) for x in inputs)
         for w in WIDTHS:
             lines.append("N %d %s ; %s" % (w, hx(g.render()), ins))
@@ -308,6 +520,37 @@ def merge_family(ctx, exe_r):
                                   "depend on the index storage width",
                            "replay_cmd": "for w in 8 16 32; do echo \"N $w %s ; <inputs>\" | .work/target/release/c20; done" % hx(g.render())})
     ctx.oblige(nbad == 0, "width-independence-on-merge-family")
+    # per-state iterators (every build of the family: ` | IT …` is always printed)
+    nit = 0
+    for k in range(len(lines)):
+        r = parse_impl(out[k])
+        if r["T"] == "OK" and not (r.get("IT") or "").startswith("ok"):
+            nit += 1
+            g, w = meta[k]
+            ctx.violation({"grammar": g.render(), "width": w, "impl": out[k][:600],
+                           "why": "per-state iterators (state_actions / state_shifts / core_reduces) disagree with the action() cells of the "
+                                  "same u%d table: %s" % (w, r.get("IT")),
+                           "replay_cmd": "echo \"N %d %s\" | .work/target/release/c20" % (w, hx(g.render()))})
+    ctx.oblige(nit == 0, "iterators-agree-with-cells-on-merge-family")
+    # phase 2: the inputs every width rejects (recovery off), parsed again with CPCT+ recovery in all widths and both profiles —
+    # conflict-free grammars only (recovery on conflict-resolved tables: C05-C07's known classes)
+    if exe_d is not None:
+        items = []
+        for k in range(0, len(lines), 3):
+            g = meta[k][0]
+            rs = [parse_impl(out[k + j]) for j in range(3)]
+            if not all(r["T"] == "OK" and r["t"].get("sr") == "0" and r["t"].get("rr") == "0" for r in rs):
+                continue
+            ins_k = ins_of[k // 3]
+            usable = [x for x in ins_k if all(t in g.tokens for t in x)]
+            if len(usable) != len(rs[2]["P"]):
+                continue
+            bad = [" ".join(x) for x, p in zip(usable, rs[2]["P"]) if " => rej" in p and x]
+            if not bad:
+                continue
+            iso = len(set(r["t"].get("th") for r in rs)) == 1
+            items.append(("%s" % g.key(), g.render(), bad[:ctx.n(6, 12)], iso))
+        recovery_family(ctx, exe_r, exe_d, items, "merge_rec")
     return len(gs)
 
 
@@ -391,7 +634,7 @@ def run(ctx):
             uniq.append(c)
     cases = uniq
 
-    env = {"GVH_CASE_TIMEOUT_MS": "600000"}
+    env = dict(REC_ENV, GVH_CASE_TIMEOUT_MS="600000")
     hl = [c.harness_line(w) for c in cases for w in WIDTHS]
     impl_r = core.run_lines([exe_r], hl, timeout=3000, env=env)
     # debug profile (overflow checks, debug assertions): all 8-bit-sized cases, the big ones only in thorough
@@ -464,6 +707,10 @@ def run(ctx):
                 cls, why = "Wrapped", "accepted but table / parse transcript differs from the u32 build"
             elif cls == "Same" and any("panic" in p for p in r["P"]):
                 cls, why = "OtherPanic", "parser panicked"
+            if cls == "Same" and r["T"] == "OK":
+                ex = extras_diff(ctx, r, ref, "release u%d" % w)
+                if ex:
+                    cls, why = ("OtherPanic" if any("panic" in e.lower() for e in ex) else "Wrapped"), "; ".join(ex[:3])
         # debug profile must behave like release
         dline = impl_d.get((i, w))
         if dline is not None and dline != line_r:
@@ -473,6 +720,10 @@ def run(ctx):
                     cls, why = "OtherPanic", "debug and release profiles differ: debug=%s" % dline[:300]
                 else:
                     why += "; debug=%s" % dline[:200]
+            elif cls in ("Same", "Refused") and dr["T"] == "OK" and ref["T"] == "OK":
+                ex = extras_diff(ctx, dr, ref, "debug u%d" % w)
+                if ex:
+                    cls, why = "OtherPanic", "debug profile: " + "; ".join(ex[:3])
         if r["raw"].startswith("HANG") or r["raw"].startswith("CRASH"):
             cls, why = "OtherPanic", r["raw"][:200]
         ctx.count("class_%s_w%d" % (cls, w))
@@ -562,7 +813,9 @@ def run(ctx):
                 ctx.violation(dict(base, broken="correspondence C20 lexer mirror vs implementation"), no_input=True)
     ctx.oblige(nl == 0, "correspondence-lexer")
 
-    n_merge = merge_family(ctx, exe_r)
+    n_merge = merge_family(ctx, exe_r, exe_d)
+    ded = dedicated_grammars(ctx)
+    n_ded = recovery_family(ctx, exe_r, exe_d, [(n, src, ins, True) for n, src, ins in ded], "dedicated_rec")
 
     ctx.coverage["rule"] = (
         "grammars S(chain of c tokens)+unused rules/tokens/productions with ONE dimension (source rules, tokens, productions, symbols of "
@@ -577,6 +830,15 @@ def run(ctx):
         "Merge family: %d small LR(1)-not-LALR(1) grammars (gen.grammars not_lalr_template / not_lalr_multi / depth_merge_grammar / "
         "layered_grammar.reduced + the classic E/F shape in both declaration orders) x 3 widths with generated inputs; compared across widths: "
         "#sr, #rr conflicts, #states, accept+tree / first-error position per input (non-trivial: >= 8 states, an accepted and a rejected input)." % n_merge)
+    ctx.coverage["rule"] += (
+        " Per-state iterators: in every accepted build (boundary configurations, merge family, dedicated grammars) state_actions / "
+        "state_shifts / core_reduces of every state are compared with the action() cells of that width. Error recovery: every boundary "
+        "configuration's 3 inputs, the rejected inputs of the conflict-free merge-family grammars and %d dedicated grammars (one statement "
+        "form per keyword / a keyword rule with 30-60 [thorough -200] keywords: u8 accepts, state index x tokens_len > 255; 300 keywords: "
+        "u16 accepts, product > 65535) with 16+ erroneous inputs each are parsed with RecoveryKind::CPCTPlus in u8, u16, u32, release and "
+        "debug; compared with the u32 release build: error positions, the sorted SET of repair sequences of each error up to the first "
+        "error where a different member of the set was applied (counters rec_compare_same / _choice / _timeout), the value when all applied "
+        "sequences agree; on non-isomorphic tables (merge family) only error positions." % n_ded)
     ctx.coverage["exhaustive"] = False
     ctx.coverage["guards_variant_expected"] = "fixed" if GUARDS_FIXED else "original"
     ctx.coverage["property_level_witnesses"] = nprop
@@ -584,6 +846,9 @@ def run(ctx):
         "state numbers are compared up to the canonical BFS renumbering (raw numbering follows FNV hash order of (PIdx<T>,SIdx<T>) keys and so legitimately depends on T)",
         "number of states before gc is not observable through the public API: the mirror is fed pre_gc = post_gc = states of the u32 build; an unpredicted 'stategraph' refusal is accepted (counted as pre_gc_refusal)",
         "refusal = panic message containing 'not big enough', or the size assertions of StateGraph::new / StateTable::new, or the lexer's try_from message",
+        "the SET of minimum-cost repair sequences CPCT+ offers for an error is a function of the table, the stack and the remaining input; "
+        "the ORDER (hence repairs()[0], the applied one) is arbitrary (HashSet drain): errors after a differently chosen repair are not compared; "
+        "a search that ends without repairs after >= 70%% of the %d ms budget counts as a timeout, not as a difference" % REC_BUDGET_MS,
         "usize is 64 bit (C20_cell_roundtrip needs width(usize) >= width(StorageT) + 2)",
         "same numbering / table contents / parse results across widths — what is a theorem and what is differential: in C01's construction mirror "
         "from_yacc_mirror the width is exactly the StorageT bound max_st plus the hash-order oracles. THEOREMS (Properties/C20.v, for every grammar, "
